@@ -1107,8 +1107,63 @@ def replay_notes(res: Result):
     return res
 
 
+def remote_completion_cases(res):
+    """"complex and action events re-enter the stream; nothing is lost" also for a completion the instance LEARNS from a
+    peer (`on_distributed_update` with a completed record): one complex event with local=False, no action run under the
+    default local-only forwarding, and the complex event comes back through the receiver to the decider like any other --
+    a pattern over complex events advances on it -- and every queue drains."""
+    from bobocep.cep.engine.decider.runserial import BoboRunSerial
+    from bobocep.cep.event import BoboHistory
+    for build in ('simple', 'hand'):
+        for n_remote in (1, 2):
+            case = {'build': build, 'cfg': [0, 0, 0, 0, 1], 'validator': 'all', 'local_only': 1, 'remote_completion': n_remote,
+                    'phens': [{'name': 'p0', 'where': 'B', 'dg': 'cnt', 'act': 'a0:t',
+                               'patterns': [{'name': 'pa', 'blocks': [['fb', ['eq', 0]], ['fb', ['eq', 1]]], 'halt': None}]},
+                              {'name': 'p1', 'where': 'B', 'dg': '-', 'act': '-',
+                               'patterns': [{'name': 'pq', 'blocks': [['fb', ['cx', 'p0']], ['fb', ['cx', 'p0']]], 'halt': None}]}],
+                    'ops': []}
+            rig = Rig(case)
+            res.add_case(case, nontrivial=True)
+            res.count('remote_completion_cases')
+            try:
+                for k in range(n_remote):
+                    ev0 = BoboEventSimple(event_id=f'q{k}a', timestamp=1, data=0)
+                    ev1 = BoboEventSimple(event_id=f'q{k}b', timestamp=2, data=1)
+                    rec = BoboRunSerial(f'peer_run_{k}', 'p0', 'pa', 2, BoboHistory({'g0': [ev0], 'g1': [ev1]}))
+                    rig.eng.decider.on_distributed_update(completed=[rec], halted=[], updated=[])
+                for _ in range(12):
+                    rig.eng.update()
+            except Exception as e:      # noqa
+                res.violations.append(Violation('remote-completion-raised', f"{type(e).__name__}: {e}", case))
+                continue
+            cx = [(e, loc) for e, loc in rig.complexes if e.phenomenon_name == 'p0']
+            if len(cx) != n_remote or any(loc for _, loc in cx):
+                res.violations.append(Violation('remote-completion-complex-events', f"{n_remote} completions learned from a peer gave "
+                                                f"{[(e.event_id, loc) for e, loc in cx]} complex events (expected {n_remote}, local=False)", case))
+                continue
+            if rig.exec_log:
+                res.violations.append(Violation('remote-completion-action-run', f"the action ran {len(rig.exec_log)} time(s) for completions "
+                                                f"learned from a peer (default: local only)", case))
+                continue
+            back = [e for e in rig.seen if isinstance(e, BoboEventComplex) and e.phenomenon_name == 'p0']
+            if len(back) != n_remote:
+                res.violations.append(Violation('feedback-lost', f"{n_remote} complex event(s) of completions learned from a peer were produced, "
+                                                f"{len(back)} came back to the decider through the receiver", case))
+                continue
+            if n_remote == 2 and not any(e.phenomenon_name == 'p1' for e, _ in rig.complexes):
+                res.violations.append(Violation('feedback-lost', "the pattern over two complex events of p0 did not complete on the two complex "
+                                                "events of completions learned from a peer", case))
+                continue
+            if any(rig.sizes()):
+                res.violations.append(Violation('queues-not-drained', f"sizes after 12 updates: {rig.sizes()}", case))
+
+
 def run(ctx: Ctx) -> Result:
     res = Result()
+    if ctx.replay is None or (isinstance(ctx.replay.get('replay'), dict) and ctx.replay['replay'].get('remote_completion')):
+        remote_completion_cases(res)
+        if ctx.replay is not None:
+            return res
     rp = ctx.replay['replay'] if ctx.replay is not None else None
     rp_tie = isinstance(rp, dict) and rp.get('handler') in ('mt', 'mp')     # a replay of the asynchronous tie family
     if ctx.replay is not None:
